@@ -106,7 +106,7 @@ _DUMP_N = [0]
 
 class Config:
     def __init__(self, logic=None, feas_rlimit=20_000_000, ob_rlimit=200_000_000, max_decisions=400,
-                 fresh_feas=False, ob_timeout_ms=0, feas_timeout_ms=0, max_cex_per_ob=6, max_paths=None,
+                 fresh_feas=False, ob_timeout_ms=900_000, feas_timeout_ms=60_000, max_cex_per_ob=6, max_paths=None,
                  max_alternatives=48, soft_alternatives=0, soft_samples=0, approx_rlimit=None, approx_timeout_ms=None,
                  falsify_samples=0, falsify_first_rlimit=30_000_000, falsify_first_ms=20_000, falsify_budget_s=90):
         self.logic = logic
